@@ -19,6 +19,7 @@
 From Coq Require Import List ZArith Bool Arith Permutation.
 From NT Require Import Sx Rose Export ExportProofs.
 From NT Require MiscMermaid MiscMermaidProofs.   (* part MERMAIDDEF, imported at the end of this file *)
+From NT Require MiscWriters MiscWritersProofs.   (* part WRITERS, imported at the end of this file *)
 From NT Require Nav.
 From NT Require CaseC17.   (* the correspondence entry point is rebuilt with the obligations *)
 From NTGen Require Import Generated.
@@ -452,4 +453,58 @@ Example C17_mermaid_ex_decoding :
   option_map mo_unique (mopts_of_defaults
     (map (fun e => if text_eqb (fst e) k_unique then (fst e, [70; 97; 108; 115; 101]%Z) else e) MERMAID_NODE_DEFAULTS)
     [97; 100; 100; 95; 115; 101; 108; 102]%Z) = Some false.
+Proof. vm_compute. reflexivity. Qed.
+
+(* ==== PART WRITERS: dot.tree_to_dotfile and mermaid.node_to_mermaid_flowchart as writers (model theories/Forest/MiscWriters.v,
+   correspondence Cases/CaseMiscWriters.v on streams and real files, harness parts_misc.WRITERS).  [wres]: [WStream t] the
+   caller's stream received t; [WFile other t] a file did (the path, or the path with the suffix replaced – then the
+   external converter, outside the model, is run); [WRefused] RuntimeError before anything is written; [WBroken ...  t]
+   a mapper raised and t had been written by then. ==== *)
+Import MiscWriters MiscWritersProofs.
+
+(* every line is followed by one newline, and the text determines the lines (no line of the exporters contains a newline) *)
+Theorem C17_writers_text_decodes : forall ls, Forall no_nl ls -> split_nl [] (lines_text ls) = ls.
+Proof. exact lines_text_decodes. Qed.
+Print Assumptions C17_writers_text_decodes.
+
+(* to_dotfile: the four combinations of target and format *)
+Theorem C17_writers_dotfile : forall doc,
+  dotfile_write doc TStream false = WStream (lines_text doc) /\
+  dotfile_write doc TStream true = WRefused /\
+  dotfile_write doc TPath false = WFile false (lines_text doc) /\
+  dotfile_write doc TPath true = WFile true (lines_text doc).
+Proof. exact dotfile_cases. Qed.
+Print Assumptions C17_writers_dotfile.
+
+(* the yields of the Mermaid generator, run to the end, are the chart of this file's theorems *)
+Theorem C17_writers_events_are_the_chart : forall o s, oseq (chart_events o s) = mer_chart o s.
+Proof. exact chart_events_chart. Qed.
+Print Assumptions C17_writers_events_are_the_chart.
+
+(* no mapper fails: the whole chart is written, to the stream or to the path *)
+Theorem C17_writers_mermaid_complete : forall o s ls, mer_chart o s = Some ls ->
+  mermaid_write o s TStream false = WStream (lines_text ls) /\ mermaid_write o s TPath false = WFile false (lines_text ls).
+Proof. exact mermaid_write_complete. Qed.
+Print Assumptions C17_writers_mermaid_complete.
+
+(* a mapper fails: the stream is left with exactly the lines before the first failing one (a truncated chart) *)
+Theorem C17_writers_mermaid_partial : forall o s, mer_chart o s = None ->
+  exists ls k, mermaid_write o s TStream false = WBroken TStream false (lines_text ls) /\
+               nth_error (chart_events o s) k = Some None /\ map Some ls = firstn k (chart_events o s).
+Proof. exact mermaid_write_broken. Qed.
+Print Assumptions C17_writers_mermaid_partial.
+
+(* format=: a stream is refused before anything is generated; a path receives the chart WITHOUT the markdown fence *)
+Theorem C17_writers_mermaid_format : forall o s,
+  mermaid_write o s TStream true = WRefused /\
+  mermaid_write o s TPath true = mermaid_write (no_markdown o) s TPath true /\
+  (forall ls, mer_chart (no_markdown o) s = Some ls -> mermaid_write o s TPath true = WFile true (lines_text ls)).
+Proof. exact mermaid_write_format. Qed.
+Print Assumptions C17_writers_mermaid_format.
+
+(* non-vacuity: a node template with an unknown field on a one-node tree – the header and the root line are in the stream, nothing after *)
+Example C17_writers_ex_partial :
+  mermaid_write (MO false [84; 68]%Z TitleOff [] true true (Some [123; 120; 125]%Z) None)
+                (T 0 (I 0 0 0 true [84]%Z (DInt 0) None []) [T 1 (I 1 1 1 true [97]%Z (DInt 1) None []) []]) TStream false =
+  WBroken TStream false (lines_text [[]; L_generator; []; L_flowchart ++ [84; 68]%Z; []; L_nodes; [48; 123; 123; 34; 84; 34; 125; 125]%Z]).
 Proof. vm_compute. reflexivity. Qed.
